@@ -1,0 +1,90 @@
+//go:build verif
+
+// Contracts for the govc verifier (see /verif/DESIGN.md). Comment-only file.
+package formula
+
+//@ # Trusted facts about the real power function (A-REAL): used only by obligations tagged modulo-real.
+//@ axiom [real] powpos: forall z real, w real :: z > 0 ==> pow(z, w) > 0
+//@ axiom [real] powunit: forall z real, w real :: 0 <= z && z <= 1 && w > 0 ==> 0 <= pow(z, w) && pow(z, w) <= 1
+//@ axiom [real] powge1: forall z real, w real :: z >= 1 && w > 0 ==> pow(z, w) >= 1
+//@ axiom [real] powmono: forall a real, b real, w real :: 0 <= a && a <= b && w > 0 ==> pow(a, w) <= pow(b, w)
+
+//@ func CalculatePurchaseReturn
+//@   serves C12
+//@   let S = supply.val
+//@   let R = reserve.val
+//@   let d = deposit.val
+//@   requires supply != nil && reserve != nil && deposit != nil && S > 0 && R > 0 && d >= 0 && crr >= 10 && crr <= 100
+//@   ensures zero: d == 0 ==> result.val == 0
+//@   ensures crr100: crr == 100 && d != 0 ==> result.val == div(S * d, R)
+//@   ensures [real] bancor: crr != 100 && d != 0 ==> result.val == trunc((pow(1 + real(d) / real(R), real(crr) / 100) - 1) * real(S))
+//@   ensures [real] nonneg: result != nil && result.val >= 0
+//@   ensures isfresh: fresh(result)
+//@   modifies nothing
+
+//@ func CalculatePurchaseAmount
+//@   serves C12
+//@   let S = supply.val
+//@   let R = reserve.val
+//@   let wr = wantReceive.val
+//@   requires supply != nil && reserve != nil && wantReceive != nil && S > 0 && R > 0 && wr >= 0 && crr >= 10 && crr <= 100
+//@   ensures zero: wr == 0 ==> result.val == 0
+//@   ensures crr100: crr == 100 && wr != 0 ==> result.val == div(wr * R, S)
+//@   ensures [real] bancor: crr != 100 && wr != 0 ==> result.val == trunc((pow((real(wr) + real(S)) / real(S), 100 / real(crr)) - 1) * real(R))
+//@   ensures [real] nonneg: result != nil && result.val >= 0
+//@   ensures isfresh: fresh(result)
+//@   modifies nothing
+
+//@ func CalculateSaleReturn
+//@   serves C12
+//@   let S = supply.val
+//@   let R = reserve.val
+//@   let s = sellAmount.val
+//@   requires supply != nil && reserve != nil && sellAmount != nil && S > 0 && R > 0 && s >= 0 && s <= S && crr >= 10 && crr <= 100
+//@   ensures zero: s == 0 ==> result.val == 0
+//@   ensures sellall: s == S ==> result.val == R
+//@   ensures crr100: crr == 100 && s != 0 && s != S ==> result.val == div(R * s, S)
+//@   ensures [real] bancor: crr != 100 && s != 0 && s != S ==> result.val == trunc((1 - pow(1 - real(s) / real(S), 100 / real(crr))) * real(R))
+//@   ensures [real] bounded: result != nil && 0 <= result.val && result.val <= R
+//@   ensures isfresh: fresh(result)
+//@   modifies nothing
+
+//@ func CalculateSaleAmount
+//@   serves C12
+//@   let S = supply.val
+//@   let R = reserve.val
+//@   let wr = wantReceive.val
+//@   requires supply != nil && reserve != nil && wantReceive != nil && S > 0 && R > 0 && wr >= 0 && wr <= R && crr >= 10 && crr <= 100
+//@   ensures zero: wr == 0 ==> result.val == 0
+//@   ensures crr100: crr == 100 && wr != 0 ==> result.val == div(wr * S, R)
+//@   ensures [real] bancor: crr != 100 && wr != 0 ==> result.val == trunc((1 - pow((real(R) - real(wr)) / real(R), real(crr) / 100)) * real(S))
+//@   ensures [real] bounded: result != nil && 0 <= result.val && result.val <= S
+//@   ensures isfresh: fresh(result)
+//@   modifies nothing
+
+//@ # ---- monotonicity and round trip, as pure lemmas over the postcondition formulas above
+//@ lemma saleReturnMonotoneInt(S int, R int, s1 int, s2 int)
+//@   serves C12
+//@   requires S > 0 && R > 0 && 0 <= s1 && s1 <= s2 && s2 <= S
+//@   ensures mono: div(R * s1, S) <= div(R * s2, S)
+//@   ensures top: div(R * s2, S) <= R
+
+//@ lemma purchaseReturnMonotoneInt(S int, R int, d1 int, d2 int)
+//@   serves C12
+//@   requires S > 0 && R > 0 && 0 <= d1 && d1 <= d2
+//@   ensures mono: div(S * d1, R) <= div(S * d2, R)
+
+//@ lemma buyThenSellInt(S int, R int, d int)
+//@   serves C12
+//@   requires S > 0 && R > 0 && d > 0
+//@   ensures noprofit: div((R + d) * div(S * d, R), S + div(S * d, R)) <= d
+
+//@ lemma saleReturnMonotoneReal(S int, R int, w real, s1 int, s2 int)
+//@   serves C12
+//@   requires S > 0 && R > 0 && w > 0 && 0 < s1 && s1 <= s2 && s2 < S
+//@   ensures [real] mono: trunc((1 - pow(1 - real(s1) / real(S), w)) * real(R)) <= trunc((1 - pow(1 - real(s2) / real(S), w)) * real(R))
+
+//@ lemma purchaseReturnMonotoneReal(S int, R int, w real, d1 int, d2 int)
+//@   serves C12
+//@   requires S > 0 && R > 0 && w > 0 && 0 < d1 && d1 <= d2
+//@   ensures [real] mono: trunc((pow(1 + real(d1) / real(R), w) - 1) * real(S)) <= trunc((pow(1 + real(d2) / real(R), w) - 1) * real(S))
